@@ -441,6 +441,7 @@ type svWorkload struct {
 	outSeq    int
 	wantDt    time.Duration
 	modShared bool
+	thrMoved        map[uint64]bool
 	lastBatchPaused, lastBatchStarted bool
 	oneShotUpdated                    bool
 }
@@ -487,6 +488,11 @@ func (w *svWorkload) Genesis(cdc codec.Codec, gs map[string]json.RawMessage) {
 	total := sdk.NewCoins()
 	for i, p := range provs {
 		dep := sdk.NewCoins(sdk.NewInt64Coin(rig.BondDenom, int64(15000+1000*i)))
+		if i == 1 {
+			// one deposit also holds a denomination that is not the base denomination (as after a change of the base
+			// denomination, or a hand-written genesis): slashing takes its share of the base denomination only
+			dep = dep.Add(sdk.NewInt64Coin("tka", 7777))
+		}
 		sg.Bindings = append(sg.Bindings, svtypes.ServiceBinding{ServiceName: "svc-g", Provider: addr(p), Deposit: dep, Pricing: fmt.Sprintf(`{"price":"%d%s"}`, 3+i, rig.BondDenom), QoS: 1, Options: "{}", Available: true, Owner: addr(owners[i%len(owners)])})
 		total = total.Add(dep...)
 	}
@@ -1091,6 +1097,26 @@ func (w *svWorkload) script(v *svSnap) []rig.Tx {
 			w.run.Count("one-shot-updated-mid-batch", 1)
 		}
 	}
+	// the module-owned contexts with frequency 7 / 8: the module moves their threshold while batch 1 is in flight
+	for _, fr := range []uint64{7, 8} {
+		if w.thrMoved[fr] {
+			continue
+		}
+		if id := findCtx(c1, w.cfg.ModName, func(rc svtypes.RequestContext) bool {
+			return rc.Repeated && rc.RepeatedFrequency == fr && rc.BatchCounter == 1 && rc.BatchState == svtypes.BATCHRUNNING
+		}); id != "" {
+			if w.thrMoved == nil {
+				w.thrMoved = map[uint64]bool{}
+			}
+			w.thrMoved[fr] = true
+			to := uint32(1)
+			if fr == 8 {
+				to = 2
+			}
+			txs = append(txs, w.txModOp(c1, svModOpArgs{Op: "update", Ctx: id, Consumer: c1.Addr.String(), Threshold: to}, ""))
+			w.run.Count(fmt.Sprintf("module-context-threshold-moved-to-%d-while-batch-in-flight", to), 1)
+		}
+	}
 	// the context with two batches in total: while its second (last) batch is in flight with its request unanswered
 	// (scripted contexts leave every batch with counter%3 == 2 unanswered), the consumer pauses it and starts it again
 	if id := findCtx(c1, "", func(rc svtypes.RequestContext) bool {
@@ -1142,6 +1168,11 @@ func (w *svWorkload) script(v *svSnap) []rig.Tx {
 			w.txCall(c1, "svc-b", []*rig.Account{P[2]}, w.hugeCap(), 3, false, 0, 0, "scripted"),
 			w.txCall(c1, "svc-a", []*rig.Account{P[0]}, w.hugeCap(), 3, true, 4, 2, "scripted-last-batch"),
 			w.txModCreate(c1, svCreateArgs{Service: "svc-a", Providers: []string{P[0].Addr.String(), P[1].Addr.String()}, Consumer: c1.Addr.String(), FeeCap: w.hugeCap().String(), Timeout: 2, Repeated: true, Freq: 3, Total: 2, Threshold: 2}, "scripted"),
+			// two more module-owned contexts whose threshold the module changes while batch 1 is in flight (only the first
+			// provider answers batch 1): issued with 2 and lowered to 1, issued with 1 and raised to 2. A batch is judged
+			// by the threshold it was issued with
+			w.txModCreate(c1, svCreateArgs{Service: "svc-a", Providers: []string{P[0].Addr.String(), P[1].Addr.String()}, Consumer: c1.Addr.String(), FeeCap: w.hugeCap().String(), Timeout: 3, Repeated: true, Freq: 7, Total: 2, Threshold: 2}, "scripted"),
+			w.txModCreate(c1, svCreateArgs{Service: "svc-a", Providers: []string{P[0].Addr.String(), P[1].Addr.String()}, Consumer: c1.Addr.String(), FeeCap: w.hugeCap().String(), Timeout: 3, Repeated: true, Freq: 8, Total: 2, Threshold: 1}, "scripted"),
 		)
 		// idle-gap restart, variant A: frequency = timeout+4; paused right after batch 1 expired, restarted one block later,
 		// two blocks before the scheduled batch 2 (the restart must not add a second schedule)
